@@ -1,13 +1,9 @@
 SPECIFICATION Spec
 CONSTANTS
+  Chunks = 16
   Thorough = FALSE
-  Den3 = 16
 INVARIANTS
-  TokInv
-  AstInv
-  FoldInv
-  OutcomeInv
-  ContextInv
-  EmitInv
+  InvEq
+  InvProducers
 POSTCONDITION Emit
 CHECK_DEADLOCK FALSE
